@@ -122,10 +122,16 @@ func (s *Service) Handle(ctx context.Context, conn net.Conn) error {
 
 	rcvLine := make(chan string)
 
+	// closed when this connection has been served, so that the goroutine below ends with it
+	done := make(chan struct{})
+	defer close(done)
+
 	// Wait for a message and send it into the eventbus
 	go func() {
 		for {
 			select {
+			case <-done:
+				return
 			case message := <-s.receiveChan:
 				header := []event.Option{}
 
